@@ -5,6 +5,12 @@ include!("/verif/replay/common.rs");
 fn t(created_secs: u64, created_nanos: u32, ttl_ms: u64) -> Time {
     Time { d: Duration::from_millis(ttl_ms), created_at: UNIX_EPOCH + Duration::new(created_secs, created_nanos) }
 }
+/// the oracle's own statement of the bucket numbering (the contract's `bucket_of`): the second after the deadline second,
+/// saturating at i64::MAX — deliberately NOT the crate's storage_bucket, so that a change of that function is observed
+fn bucket_of(t: Time) -> i64 {
+    let s = t.unix();
+    if s >= i64::MAX as u64 { i64::MAX } else { (s + 1) as i64 }
+}
 fn listed(em: &ExpirationMap, b: i64, k: u64) -> bool {
     em.buckets.read().get(&b).map_or(false, |bk| bk.map.contains_key(&k))
 }
@@ -61,9 +67,9 @@ fn expiration_index_keeps_other_keys() {
                 }
             }
             // the key itself
-            if !now.is_zero() && !listed(&em, storage_bucket(now), k) {
+            if !now.is_zero() && !listed(&em, bucket_of(now), k) {
                 fail("expiration_index_keeps_other_keys", "C05,C03:em.update.listed", &["C05", "C03"], "ExpirationMap::try_update", script.join("; "),
-                    format!("key {} not listed in bucket {}", k, storage_bucket(now)), "listed in the bucket of its new deadline".into());
+                    format!("key {} not listed in bucket {}", k, bucket_of(now)), "listed in the bucket of its new deadline".into());
                 return;
             }
             if now.is_zero() {
@@ -97,11 +103,11 @@ fn cleanup_hands_out_every_due_bucket() {
             let ttl = 1000 * (1 + rng.below(8));
             let tm = t(base, (rng.below(1000) * 1_000_000) as u32, ttl);
             em.try_insert(k, 7, tm).unwrap();
-            script.push(format!("try_insert(k={}, deadline bucket {})", k, storage_bucket(tm)));
-            if storage_bucket(tm) <= now_s as i64 { due.push(k) } else { later.push((storage_bucket(tm), k)) }
+            script.push(format!("try_insert(k={}, deadline bucket {})", k, bucket_of(tm)));
+            if bucket_of(tm) <= now_s as i64 { due.push(k) } else { later.push((bucket_of(tm), k)) }
         }
         let now = t(now_s, 0, 0);
-        script.push(format!("try_cleanup(now: cleanup bucket {})", cleanup_bucket(now)));
+        script.push(format!("try_cleanup(now: cleanup bucket {})", (bucket_of(now) - 1)));
         let got = em.try_cleanup(now).unwrap();
         for k in &due {
             if !got.as_ref().map_or(false, |m| m.contains_key(k)) {
@@ -213,9 +219,9 @@ fn store_cleanup_removes_only_expired() {
                     format!("key {} (value {}, ttl {:?}, zero={}) was swept", k, v, tm.d, tm.is_zero()), "cleanup removes only entries whose TTL has elapsed".into());
                 return;
             }
-            if resident && expired_ttl && storage_bucket(*tm) <= now_s as i64 {
+            if resident && expired_ttl && bucket_of(*tm) <= now_s as i64 {
                 fail("store_cleanup_removes_only_expired", "C05:cleanup.reclaims-every-expired-entry", &["C05", "C06"], "ShardedMap::try_cleanup", script.join("; "),
-                    format!("key {} expired (bucket {}) but still resident", k, storage_bucket(*tm)), "every expired entry in a due bucket is reclaimed".into());
+                    format!("key {} expired (bucket {}) but still resident", k, bucket_of(*tm)), "every expired entry in a due bucket is reclaimed".into());
                 return;
             }
             if !resident {
